@@ -266,13 +266,12 @@ let handle line =
           let lk = (match mode with
               | "s" -> scan_lookup key ch
               | "l" -> lookup_lower key ch
-              | "n" -> lookup_none
               | _ -> failwith "bad lookup mode") in
           parents (k - 1) ((lk, ch) :: acc) l''
         | [] -> failwith "short parents" in
     let ps, rest = parents nparents [] rest in
     let others, _ = take_list rest (fun x -> nat_of_int (int_of_string x)) in
-    let bkv = (match bk with "f" -> BFound | "k" -> BNames false | "d" -> BNames true | _ -> failwith "bad bk") in
+    let bkv = (match bk with "f" -> BFound | "d" -> BNames | _ -> failwith "bad bk") in
     ids_out (run_query (bool_of_tok ic) (bool_of_tok ir) key (bool_of_tok nk) bkv ps others pats)
   | "N" :: ic :: ir :: rest ->
     let pats, rest = take_list rest str_of_tok in
